@@ -255,10 +255,10 @@ type wJob struct {
 	Err    string
 }
 
-func partW(c *lib.Ctx, base string) {
+func partW(c *lib.Ctx, base string) func() {
 	strs := func(x ...string) []string { return x }
 	sp := func(x string) *string { return &x }
-	big := strings.Repeat("0123456789abcdef", 2048) // 32 KiB: one full io.Copy buffer
+	big := strings.Repeat("0123456789abcdef", 64) // 1 KiB
 	var cfgs []WSpec
 	cfgs = append(cfgs,
 		WSpec{DirExists: true, Old: sp("old content\n"), OldMode: 0o644, Chunks: strs("new ", "content", "\n"), Mode: 0o644},
@@ -287,98 +287,112 @@ func partW(c *lib.Ctx, base string) {
 	}
 	if c.ReadReplay(&replay) {
 		if replay.Kind != "writefile" || replay.W == nil {
-			return
+			return func() {}
 		}
 		cfgs = []WSpec{*replay.W}
 	}
 	var jobs []*wJob
-	for i := range cfgs {
-		cfgs[i].Dir = filepath.Join(base, fmt.Sprintf("w%d", i))
-		wPrepare(cfgs[i])
-		fin, _, out := wRun(cfgs[i], nil)
-		if !fin {
-			panic("WriteFile helper failed without injection: " + out)
-		}
-		calls, err := wCalls(filepath.Join(cfgs[i].Dir, "strace.log"))
-		must(err)
-		var names []string
-		for _, cp := range calls {
-			names = append(names, cp.Name)
-		}
-		if strings.Join(names, ",") != strings.Join(wModelNames(cfgs[i]), ",") {
-			// the syscall sequence of WriteFile is not the model's step list: report it as a disagreement
-			c.Case(lib.App("CWrite", lib.Bool(cfgs[i].DirExists), "None", "[]", "0%N", lib.Nat(999), "None", "None"),
-				map[string]any{"kind": "writefile", "w": cfgs[i], "syscalls": names, "model": wModelNames(cfgs[i])}, fmt.Sprint("wseq", i), true)
-			continue
-		}
-		for k := 0; k <= len(calls); k++ {
-			j := &wJob{W: cfgs[i], K: k}
-			j.W.Dir = filepath.Join(base, fmt.Sprintf("w%d_%d", i, k))
-			if k < len(calls) {
-				cp := calls[k]
-				j.At = &cp
+	var seqCases []func()
+	done := make(chan struct{})
+	go func() {
+		defer close(done)
+		for i := range cfgs {
+			cfgs[i].Dir = filepath.Join(base, fmt.Sprintf("w%d", i))
+			wPrepare(cfgs[i])
+			fin, _, out := wRun(cfgs[i], nil)
+			if !fin {
+				panic("WriteFile helper failed without injection: " + out)
 			}
-			jobs = append(jobs, j)
-		}
-	}
-	var wg sync.WaitGroup
-	sem := make(chan struct{}, 6)
-	for _, j := range jobs {
-		wg.Add(1)
-		sem <- struct{}{}
-		go func(j *wJob) {
-			defer wg.Done()
-			defer func() { <-sem }()
-			wPrepare(j.W)
-			fin, killed, out := wRun(j.W, j.At)
-			j.Fin, j.Killed = fin, killed
-			if (j.At != nil) != killed || (j.At == nil) != fin {
-				j.Err = "helper: finished=" + fmt.Sprint(fin) + " killed=" + fmt.Sprint(killed) + " " + out
+			calls, err := wCalls(filepath.Join(cfgs[i].Dir, "strace.log"))
+			must(err)
+			var names []string
+			for _, cp := range calls {
+				names = append(names, cp.Name)
 			}
-			j.Obs = wObserve(j.W)
-			os.RemoveAll(j.W.Dir)
-		}(j)
+			if strings.Join(names, ",") != strings.Join(wModelNames(cfgs[i]), ",") {
+				// the syscall sequence of WriteFile is not the model's step list: report it as a disagreement
+				i, names := i, names
+				seqCases = append(seqCases, func() {
+					c.Case(lib.App("CWrite", lib.Bool(cfgs[i].DirExists), "None", "[]", "0%N", lib.Nat(999), "None", "None"),
+						map[string]any{"kind": "writefile", "w": cfgs[i], "syscalls": names, "model": wModelNames(cfgs[i])}, fmt.Sprint("wseq", i), true)
+				})
+				continue
+			}
+			for k := 0; k <= len(calls); k++ {
+				j := &wJob{W: cfgs[i], K: k}
+				j.W.Dir = filepath.Join(base, fmt.Sprintf("w%d_%d", i, k))
+				if k < len(calls) {
+					cp := calls[k]
+					j.At = &cp
+				}
+				jobs = append(jobs, j)
+			}
+		}
+		var wg sync.WaitGroup
+		sem := make(chan struct{}, 6)
+		for _, j := range jobs {
+			wg.Add(1)
+			sem <- struct{}{}
+			go func(j *wJob) {
+				defer wg.Done()
+				defer func() { <-sem }()
+				wPrepare(j.W)
+				fin, killed, out := wRun(j.W, j.At)
+				j.Fin, j.Killed = fin, killed
+				if (j.At != nil) != killed || (j.At == nil) != fin {
+					j.Err = "helper: finished=" + fmt.Sprint(fin) + " killed=" + fmt.Sprint(killed) + " " + out
+				}
+				j.Obs = wObserve(j.W)
+				os.RemoveAll(j.W.Dir)
+			}(j)
+		}
+		wg.Wait()
+	}()
+	return func() {
+		<-done
+		for _, f := range seqCases {
+			f()
+		}
+		kills := 0
+		for _, j := range jobs {
+			js := map[string]any{"kind": "writefile", "w": j.W, "k": j.K, "observed": j.Obs}
+			if j.At != nil {
+				js["killed_at"] = j.At.Text
+			}
+			if j.Err != "" {
+				panic("crash injection did not behave: " + j.Err)
+			}
+			if j.Killed {
+				kills++
+			}
+			var old string = "None"
+			if j.W.Old != nil {
+				old = coqWFile(&wFile{*j.W.Old, j.W.OldMode})
+			}
+			dirEx := j.W.DirExists || j.W.Old != nil
+			c.Case(lib.App("CWrite", lib.Bool(dirEx), old, lib.StrList(j.W.Chunks), lib.N(uint64(j.W.Mode)), lib.Nat(j.K), coqWFile(j.Obs.Dest), coqWFile(j.Obs.Tmp)),
+				js, fmt.Sprint("w", j.W.DirExists, j.W.Old != nil, j.W.Chunks, j.W.Mode, j.K), j.K > 0 && j.At != nil)
+			c.Hist("writefile-step", map[bool]string{true: "killed", false: "complete"}[j.Killed])
+			// oracle: the destination holds the old content or the complete new content (with the requested mode)
+			c.Oracle()
+			newData := strings.Join(j.W.Chunks, "")
+			mode := j.W.Mode
+			if mode == 0 {
+				mode = 0o664
+			}
+			isOld := (j.W.Old == nil && j.Obs.Dest == nil) || (j.W.Old != nil && j.Obs.Dest != nil && j.Obs.Dest.Data == *j.W.Old && j.Obs.Dest.Mode == j.W.OldMode)
+			isNew := j.Obs.Dest != nil && j.Obs.Dest.Data == newData && j.Obs.Dest.Mode == mode
+			switch {
+			case j.At == nil && !isNew:
+				c.Fail("writefile-complete-run-wrong", "an uninterrupted WriteFile did not leave the new content and mode", js)
+			case !isOld && !isNew:
+				c.Fail("writefile-destination-partial", "after a kill the destination holds neither the old nor the complete new content", js)
+			case j.Obs.NTmp > 1:
+				c.Fail("writefile-several-temporaries", "more than one temporary file left", js)
+			}
+		}
+		c.Note("WriteFile: %d configurations, %d helper runs, %d killed by strace injection on entry to each mutating syscall (verified: died by SIGKILL, no completion file)", len(cfgs), len(jobs), kills)
 	}
-	wg.Wait()
-	kills := 0
-	for _, j := range jobs {
-		js := map[string]any{"kind": "writefile", "w": j.W, "k": j.K, "observed": j.Obs}
-		if j.At != nil {
-			js["killed_at"] = j.At.Text
-		}
-		if j.Err != "" {
-			panic("crash injection did not behave: " + j.Err)
-		}
-		if j.Killed {
-			kills++
-		}
-		var old string = "None"
-		if j.W.Old != nil {
-			old = coqWFile(&wFile{*j.W.Old, j.W.OldMode})
-		}
-		dirEx := j.W.DirExists || j.W.Old != nil
-		c.Case(lib.App("CWrite", lib.Bool(dirEx), old, lib.StrList(j.W.Chunks), lib.N(uint64(j.W.Mode)), lib.Nat(j.K), coqWFile(j.Obs.Dest), coqWFile(j.Obs.Tmp)),
-			js, fmt.Sprint("w", j.W.DirExists, j.W.Old != nil, j.W.Chunks, j.W.Mode, j.K), j.K > 0 && j.At != nil)
-		c.Hist("writefile-step", map[bool]string{true: "killed", false: "complete"}[j.Killed])
-		// oracle: the destination holds the old content or the complete new content (with the requested mode)
-		c.Oracle()
-		newData := strings.Join(j.W.Chunks, "")
-		mode := j.W.Mode
-		if mode == 0 {
-			mode = 0o664
-		}
-		isOld := (j.W.Old == nil && j.Obs.Dest == nil) || (j.W.Old != nil && j.Obs.Dest != nil && j.Obs.Dest.Data == *j.W.Old && j.Obs.Dest.Mode == j.W.OldMode)
-		isNew := j.Obs.Dest != nil && j.Obs.Dest.Data == newData && j.Obs.Dest.Mode == mode
-		switch {
-		case j.At == nil && !isNew:
-			c.Fail("writefile-complete-run-wrong", "an uninterrupted WriteFile did not leave the new content and mode", js)
-		case !isOld && !isNew:
-			c.Fail("writefile-destination-partial", "after a kill the destination holds neither the old nor the complete new content", js)
-		case j.Obs.NTmp > 1:
-			c.Fail("writefile-several-temporaries", "more than one temporary file left", js)
-		}
-	}
-	c.Note("WriteFile: %d configurations, %d helper runs, %d killed by strace injection on entry to each mutating syscall (verified: died by SIGKILL, no completion file)", len(cfgs), len(jobs), kills)
 }
 
 // =============================================================================================
@@ -392,7 +406,7 @@ var (
 	idMu       sync.Mutex
 	chunkIDs   = map[string]uint64{}
 	contentIDs = map[string]uint64{}
-	hashAttrTo = map[string]uint64{} // user.plz_hash* value -> content id, learnt from complete builds
+	hashAttrTo = map[string]map[uint64]bool{} // user.plz_hash* value -> contents it is the hash of (several: a directory hashes like the concatenation of its files, C09), learnt from complete builds
 )
 
 func chunkID(b string) uint64 {
@@ -527,7 +541,9 @@ func (ti *TInfo) all() []string {
 	sort.Strings(a)
 	return a
 }
-func (ti *TInfo) mdPath() string { return filepath.Join(ti.OutDir, ".target_build_metadata_"+ti.T.Name) }
+func (ti *TInfo) mdPath() string {
+	return filepath.Join(ti.OutDir, ".target_build_metadata_"+ti.T.Name)
+}
 func (ti *TInfo) fbPath() string { return filepath.Join(ti.OutDir, ".rule_hash_"+ti.T.Name) }
 
 // observe reads the part of plz-out that belongs to one target. learn: this is a completed build, remember
@@ -560,10 +576,24 @@ func observe(repoDir string, ti *TInfo, learn bool) *Obs {
 		f := &File{Content: contentID(tree), Tree: tree, Rec: recOf(getx(p, "user.plz_build"))}
 		if h := hashAttr(p); h != nil {
 			idMu.Lock()
-			id, ok := hashAttrTo[string(h)]
-			if !ok && learn {
-				hashAttrTo[string(h)] = f.Content
+			set := hashAttrTo[string(h)]
+			if learn {
+				if set == nil {
+					set = map[uint64]bool{}
+					hashAttrTo[string(h)] = set
+				}
+				set[f.Content] = true
+			}
+			var id uint64
+			ok := false
+			if set[f.Content] {
 				id, ok = f.Content, true
+			} else {
+				for k := range set {
+					if !ok || k < id {
+						id, ok = k, true
+					}
+				}
 			}
 			idMu.Unlock()
 			if !ok {
@@ -720,14 +750,15 @@ type Point struct {
 
 // straceScript writes a wrapper that runs plz under strace (log at logPath) and returns its path.
 func straceScript(dir, realPlz, logPath string, pt *Point) string {
-	args := []string{"exec", "strace", "-f", "-qq", "-y", "-e", "signal=none", "-o", logPath}
+	// -b execve: follow plz's threads but not the build commands it spawns
+	args := []string{"exec", "strace", "-f", "-b", "execve", "-qq", "-e", "signal=none", "-o", logPath}
 	switch {
 	case pt != nil && pt.Mode == "path":
-		args = append(args, "-P", pt.Path, "-e", "trace="+pTrace, "-e", fmt.Sprintf("inject=%s:signal=SIGKILL:when=%d", pt.Syscall, pt.When))
+		args = append(args, "-P", pt.Path, "-e", "trace="+pt.Syscall, "-e", fmt.Sprintf("inject=%s:signal=SIGKILL:when=%d", pt.Syscall, pt.When))
 	case pt != nil && pt.Mode == "count":
-		args = append(args, "-e", "trace="+pTrace, "-e", fmt.Sprintf("inject=%s:signal=SIGKILL:when=%d", pt.Syscall, pt.When))
+		args = append(args, "-e", "trace="+pt.Syscall, "-e", fmt.Sprintf("inject=%s:signal=SIGKILL:when=%d", pt.Syscall, pt.When))
 	default:
-		args = append(args, "-e", "trace="+pTrace)
+		args = append(args, "-y", "-e", "trace="+pTrace)
 	}
 	args = append(args, realPlz, `"$@"`)
 	p := filepath.Join(dir, fmt.Sprintf("plz-strace-%d.sh", time.Now().UnixNano()))
@@ -758,7 +789,11 @@ func runPoint(repo *e2e.Repo, scratch string, pt Point, forced bool, labels []st
 	repo.Plz = script
 	res = repo.Run(180*time.Second, args...)
 	os.Remove(script)
-	return res, res.Exit == 137 || res.Exit == -1 || res.Exit == -9
+	killed = res.Exit == 137 || res.Exit == -1 || res.Exit == -9
+	if killed {
+		time.Sleep(150 * time.Millisecond) // the build commands plz had spawned are not traced: let them finish
+	}
+	return res, killed
 }
 
 func snapshot(repo *e2e.Repo, dst string) {
@@ -815,6 +850,9 @@ func traceSteps(logPath, repoDir string, ti *TInfo, newIDs map[string]uint64, cu
 		switch call {
 		case "unlinkat":
 			if strings.Contains(args, q(md)) {
+				if strings.Contains(args, "AT_REMOVEDIR") {
+					continue // os.Remove tries rmdir after a failed unlink
+				}
 				steps = append(steps, "RmMd")
 				started, wroteMd = true, false
 				continue
@@ -949,7 +987,7 @@ func countPoint(r *lib.Rng) Point {
 	return Point{Mode: "count", Syscall: sc, When: r.Range(1, max)}
 }
 
-func runRepo(r *lib.Rng, base string, idx int, spec *e2e.Spec, jobs []crashJob, thorough bool) *repoResult {
+func prepareRepo(r *lib.Rng, base string, idx int, spec *e2e.Spec) (*repoResult, *prepared) {
 	rr := &repoResult{}
 	repo := e2e.NewRepo(base, "repo")
 	repo.Env = plzEnv
@@ -960,20 +998,28 @@ func runRepo(r *lib.Rng, base string, idx int, spec *e2e.Spec, jobs []crashJob, 
 
 	// clean reference builds of both trees (fresh directories), and the uninterrupted builds in the repository under strace
 	refs := map[string]*cleanRef{}
+	var refsMu sync.Mutex
+	var refsWG sync.WaitGroup
 	for name, s := range map[string]*e2e.Spec{"1": spec, "2": spec2} {
-		cl := repo.CleanCopy(base, "clean"+name, s)
-		res := cl.Run(120*time.Second, append([]string{"build"}, labels...)...)
-		rr.nplz++
-		ref := &cleanRef{Outputs: e2e.TargetOutputs(cl, s, labels), Obs: map[string]*Obs{}, Exit: res.Exit}
-		for _, ti := range tis {
-			ref.Obs[ti.Label] = observe(cl.Dir, ti, true)
-		}
-		if res.Exit != 0 {
-			panic(fmt.Sprintf("clean build of a generated repository failed: %s", res.Stderr+res.Stdout))
-		}
-		refs[name] = ref
-		os.RemoveAll(cl.Dir)
+		refsWG.Add(1)
+		go func(name string, s *e2e.Spec) {
+			defer refsWG.Done()
+			cl := repo.CleanCopy(base, "clean"+name, s)
+			res := cl.Run(120*time.Second, append([]string{"build"}, labels...)...)
+			ref := &cleanRef{Outputs: e2e.TargetOutputs(cl, s, labels), Obs: map[string]*Obs{}, Exit: res.Exit}
+			for _, ti := range tis {
+				ref.Obs[ti.Label] = observe(cl.Dir, ti, true)
+			}
+			if res.Exit != 0 {
+				panic(fmt.Sprintf("clean build of a generated repository failed: %s", res.Stderr+res.Stdout))
+			}
+			refsMu.Lock()
+			refs[name] = ref
+			refsMu.Unlock()
+			os.RemoveAll(cl.Dir)
+		}(name, s)
 	}
+	rr.nplz += 2
 
 	emitTrace := func(logPath string, ref *cleanRef, before map[string]*Obs, tag string, s *e2e.Spec) {
 		for _, ti := range tis {
@@ -1014,6 +1060,7 @@ func runRepo(r *lib.Rng, base string, idx int, spec *e2e.Spec, jobs []crashJob, 
 	if res.Exit != 0 {
 		panic("first build under strace failed: " + res.Stderr + res.Stdout)
 	}
+	refsWG.Wait()
 	emitTrace(log1, refs["1"], emptyObs, "first", spec)
 	for _, ti := range tis {
 		observe(repo.Dir, ti, true)
@@ -1042,178 +1089,204 @@ func runRepo(r *lib.Rng, base string, idx int, spec *e2e.Spec, jobs []crashJob, 
 	must(os.MkdirAll(empty, 0o755))
 	must(os.WriteFile(filepath.Join(empty, ".absent"), nil, 0o644))
 
-	for ji, job := range jobs {
-		var s *e2e.Spec
-		var ref *cleanRef
-		forced := false
-		switch job.Scenario {
-		case "first", "double":
-			s, ref = spec, refs["1"]
-			restore(repo, empty)
-		case "edit":
-			s, ref = spec2, refs["2"]
-			restore(repo, snapA)
-		case "forced":
-			s, ref, forced = spec2, refs["2"], true
-			restore(repo, snapB)
+	pr := &prepared{idx: idx, base: base, primary: repo, spec: spec, spec2: spec2, labels: labels, tis: tis, refs: refs, snapA: snapA, snapB: snapB, empty: empty}
+	return rr, pr
+}
+
+type prepared struct {
+	idx          int
+	base         string
+	primary      *e2e.Repo
+	spec, spec2  *e2e.Spec
+	labels       []string
+	tis          []*TInfo
+	refs         map[string]*cleanRef
+	snapA, snapB string
+	empty        string
+}
+
+// runJob runs one crash job in its own working copy of the repository (same action-log path text, so the
+// command texts and therefore the recorded hashes are those of the primary copy and of the clean builds).
+func runJob(pr *prepared, ji int, job crashJob, base string) *repoResult {
+	rr := &repoResult{}
+	idx, spec, spec2, labels, tis, refs, snapA, snapB, empty := pr.idx, pr.spec, pr.spec2, pr.labels, pr.tis, pr.refs, pr.snapA, pr.snapB, pr.empty
+	repo := e2e.NewRepo(base, "repo")
+	repo.Env = plzEnv
+	repo.Threads = pr.primary.Threads
+	repo.LogPath = pr.primary.LogPath
+	obsAll := func() map[string]*Obs {
+		m := map[string]*Obs{}
+		for _, ti := range tis {
+			m[ti.Label] = observe(repo.Dir, ti, false)
 		}
-		repo.Write(s)
-		type phase struct {
-			before, after map[string]*Obs
-			killed        bool
-			pt            Point
-		}
-		var phases []phase
-		pts := []Point{job.Point}
-		if job.Point2 != nil {
-			pts = append(pts, *job.Point2)
-		}
-		anyKill := false
-		for _, p := range pts {
-			before := obsAll()
-			_, killed := runPoint(repo, base, p, forced, labels)
-			rr.nplz++
-			anyKill = anyKill || killed
-			phases = append(phases, phase{before, obsAll(), killed, p})
-		}
-		if anyKill {
-			rr.nkill++
-		} else {
-			rr.nnokil++
-		}
-		last := phases[len(phases)-1]
-		rec := repo.Run(120*time.Second, append([]string{"build"}, labels...)...)
+		return m
+	}
+	var s *e2e.Spec
+	var ref *cleanRef
+	forced := false
+	switch job.Scenario {
+	case "first", "double":
+		s, ref = spec, refs["1"]
+		restore(repo, empty)
+	case "edit":
+		s, ref = spec2, refs["2"]
+		restore(repo, snapA)
+	case "forced":
+		s, ref, forced = spec2, refs["2"], true
+		restore(repo, snapB)
+	}
+	repo.Write(s)
+	type phase struct {
+		before, after map[string]*Obs
+		killed        bool
+		pt            Point
+	}
+	var phases []phase
+	pts := []Point{job.Point}
+	if job.Point2 != nil {
+		pts = append(pts, *job.Point2)
+	}
+	anyKill := false
+	for _, p := range pts {
+		before := obsAll()
+		_, killed := runPoint(repo, base, p, forced, labels)
 		rr.nplz++
-		final := obsAll()
-		outs := e2e.TargetOutputs(repo, s, labels)
-		js := map[string]any{"kind": "plz", "repo": idx, "job": ji, "scenario": job.Scenario, "point": job.Point, "point2": job.Point2, "spec": spec,
-			"killed": anyKill, "threads": repo.Threads, "recovery_exit": rec.Exit, "recovery_executed": rec.Executed}
+		anyKill = anyKill || killed
+		phases = append(phases, phase{before, obsAll(), killed, p})
+	}
+	if anyKill {
+		rr.nkill++
+	} else {
+		rr.nnokil++
+	}
+	last := phases[len(phases)-1]
+	rec := repo.Run(120*time.Second, append([]string{"build"}, labels...)...)
+	rr.nplz++
+	final := obsAll()
+	outs := e2e.TargetOutputs(repo, s, labels)
+	js := map[string]any{"kind": "plz", "repo": idx, "job": ji, "scenario": job.Scenario, "point": job.Point, "point2": job.Point2, "spec": spec,
+		"killed": anyKill, "threads": repo.Threads, "recovery_exit": rec.Exit, "recovery_executed": rec.Executed}
+	if rec.Exit != 0 {
+		js["recovery_output"] = tailStr(rec.Stderr+rec.Stdout, 1200)
+	}
+	// ---- model side: one case per target and phase
+	for pi, ph := range phases {
+		for _, ti := range tis {
+			cur := curRec(ti, ref.Obs[ti.Label])
+			if cur == nil {
+				continue
+			}
+			sk := ph.after[ti.Label]
+			// a directory caught in the middle of RemoveAll is `junk` in the model
+			for n, f := range sk.Outs {
+				old := ph.before[ti.Label].Outs[n]
+				nw := ref.Obs[ti.Label].Outs[n]
+				if strings.HasPrefix(f.Tree, "dir{") && (old == nil || f.Content != old.Content) && (nw == nil || f.Content != nw.Content) {
+					f.Content = 0
+				}
+			}
+			decision := ""
+			if pi == len(phases)-1 {
+				switch {
+				case strings.Contains(rec.Stderr+rec.Stdout, "failed to load build metadata for "+ti.Label):
+					decision = "Fail"
+				case final[ti.Label].Md != nil && (sk.Md == nil || sk.Md.Stamp != final[ti.Label].Md.Stamp):
+					decision = "Rebuild"
+				case rec.Exit == 0:
+					decision = "Reuse"
+				}
+			} else {
+				// what the next (killed) build did is seen from the state it left: only a start is certain
+				nx := phases[pi+1].after[ti.Label]
+				if (nx.Md == nil) != (sk.Md == nil) || (nx.Md != nil && nx.Md.Stamp != sk.Md.Stamp) {
+					decision = "Rebuild"
+				}
+			}
+			if decision == "" {
+				continue
+			}
+			term := lib.App("CCrash", ti.coqTarget(), lib.StrList(ti.DirOuts), lib.List(newIDs(ti, ref.Obs[ti.Label])), cur.coq(), lib.Bool(forced),
+				ph.before[ti.Label].coq(), sk.coq(), decision)
+			cjs := map[string]any{"kind": "crash-state", "repo": idx, "job": ji, "scenario": job.Scenario, "point": ph.pt, "phase": pi, "label": ti.Label,
+				"before": ph.before[ti.Label], "after": sk, "decision": decision, "spec": spec, "point1": job.Point, "point2": job.Point2}
+			key := fmt.Sprint("crash", idx, ji, pi, ti.Label)
+			moved := fmt.Sprint(ph.before[ti.Label].coq()) != fmt.Sprint(sk.coq())
+			rr.cases = append(rr.cases, func(c *lib.Ctx) {
+				c.Case(term, cjs, key, moved)
+				c.Hist("decision", decision)
+				if moved {
+					c.Hist("crash-state", "target-caught-mid-build")
+				} else {
+					c.Hist("crash-state", "target-untouched-or-complete")
+				}
+			})
+		}
+	}
+	// ---- oracle: the recovery build succeeds and plz-out equals the clean build
+	scen, killedStr := job.Scenario, map[bool]string{true: "killed", false: "not-reached"}[anyKill]
+	mode := job.Point.Mode
+	rr.cases = append(rr.cases, func(c *lib.Ctx) {
+		c.Oracle()
+		c.Eval(js, fmt.Sprint("plz", idx, ji), anyKill)
+		c.Hist("scenario", scen)
+		c.Hist("kill", mode+"-"+killedStr)
+		// the known window: the killed build started although the records were current, and was killed while
+		// the metadata file was empty
+		window := ""
+		windowSet := map[string]bool{}
+		for _, ti := range tis {
+			cur := curRec(ti, ref.Obs[ti.Label])
+			sk := last.after[ti.Label]
+			if sk.Md == nil || sk.Md.Full || cur == nil || len(ti.Decl) == 0 {
+				continue
+			}
+			allCur := true
+			for _, n := range ti.Decl {
+				f := sk.Outs[n]
+				if f == nil || f.Rec == nil || *f.Rec != *cur {
+					allCur = false
+				}
+			}
+			if allCur {
+				windowSet[ti.Label] = true
+				if window == "" || ti.Mod {
+					window = ti.Label
+				}
+			}
+		}
 		if rec.Exit != 0 {
-			js["recovery_output"] = tailStr(rec.Stderr+rec.Stdout, 1200)
+			if window != "" && strings.Contains(rec.Stderr+rec.Stdout, "failed to load build metadata for ") {
+				c.Fail("rebuild-of-current-target-killed-while-metadata-rewritten", fmt.Sprintf("%s: the next build trusts the current record on the declared outputs next to an empty metadata file and fails (%s, scenario %s)", window, firstLine(rec.Stderr+rec.Stdout, "failed to load"), scen), js)
+			} else {
+				c.Fail("recovery-build-fails", fmt.Sprintf("the build after the kill exits %d (scenario %s): %s", rec.Exit, scen, tailStr(rec.Stderr+rec.Stdout, 300)), js)
+			}
+			return
 		}
-		// ---- model side: one case per target and phase
-		for pi, ph := range phases {
-			for _, ti := range tis {
-				cur := curRec(ti, ref.Obs[ti.Label])
-				if cur == nil {
-					continue
-				}
-				sk := ph.after[ti.Label]
-				// a directory caught in the middle of RemoveAll is `junk` in the model
-				for n, f := range sk.Outs {
-					old := ph.before[ti.Label].Outs[n]
-					nw := ref.Obs[ti.Label].Outs[n]
-					if strings.HasPrefix(f.Tree, "dir{") && (old == nil || f.Content != old.Content) && (nw == nil || f.Content != nw.Content) {
-						f.Content = 0
-					}
-				}
-				decision := ""
-				if pi == len(phases)-1 {
-					switch {
-					case strings.Contains(rec.Stderr+rec.Stdout, "failed to load build metadata for "+ti.Label):
-						decision = "Fail"
-					case final[ti.Label].Md != nil && (sk.Md == nil || sk.Md.Stamp != final[ti.Label].Md.Stamp):
-						decision = "Rebuild"
-					case rec.Exit == 0:
-						decision = "Reuse"
-					}
-				} else {
-					// what the next (killed) build did is seen from the state it left: only a start is certain
-					nx := phases[pi+1].after[ti.Label]
-					if (nx.Md == nil) != (sk.Md == nil) || (nx.Md != nil && nx.Md.Stamp != sk.Md.Stamp) {
-						decision = "Rebuild"
-					}
-				}
-				if decision == "" {
-					continue
-				}
-				term := lib.App("CCrash", ti.coqTarget(), lib.StrList(ti.DirOuts), lib.List(newIDs(ti, ref.Obs[ti.Label])), cur.coq(), lib.Bool(forced),
-					ph.before[ti.Label].coq(), sk.coq(), decision)
-				cjs := map[string]any{"kind": "crash-state", "repo": idx, "job": ji, "scenario": job.Scenario, "point": ph.pt, "phase": pi, "label": ti.Label,
-					"before": ph.before[ti.Label], "after": sk, "decision": decision, "spec": spec, "point1": job.Point, "point2": job.Point2}
-				key := fmt.Sprint("crash", idx, ji, pi, ti.Label)
-				moved := fmt.Sprint(ph.before[ti.Label].coq()) != fmt.Sprint(sk.coq())
-				rr.cases = append(rr.cases, func(c *lib.Ctx) {
-					c.Case(term, cjs, key, moved)
-					c.Hist("decision", decision)
-					if moved {
-						c.Hist("crash-state", "target-caught-mid-build")
-					} else {
-						c.Hist("crash-state", "target-untouched-or-complete")
-					}
-				})
+		for _, l := range labels {
+			if ok, why := e2e.OutputsEqual(outs[l], ref.Outputs[l]); !ok {
+				c.Fail("recovery-differs-from-clean", fmt.Sprintf("%s after the kill and a normal build (scenario %s): %s", l, scen, why), js)
+				return
 			}
 		}
-		// ---- oracle: the recovery build succeeds and plz-out equals the clean build
-		scen, killedStr := job.Scenario, map[bool]string{true: "killed", false: "not-reached"}[anyKill]
-		mode := job.Point.Mode
-		rr.cases = append(rr.cases, func(c *lib.Ctx) {
-			c.Oracle()
-			c.Eval(js, fmt.Sprint("plz", idx, ji), anyKill)
-			c.Hist("scenario", scen)
-			c.Hist("kill", mode+"-"+killedStr)
-			// the known window: the killed build started although the records were current, and was killed while
-			// the metadata file was empty
-			window := ""
-			windowSet := map[string]bool{}
-			for _, ti := range tis {
-				cur := curRec(ti, ref.Obs[ti.Label])
-				sk := last.after[ti.Label]
-				if sk.Md == nil || sk.Md.Full || cur == nil || len(ti.Decl) == 0 {
-					continue
-				}
-				allCur := true
-				for _, n := range ti.Decl {
-					f := sk.Outs[n]
-					if f == nil || f.Rec == nil || *f.Rec != *cur {
-						allCur = false
-					}
-				}
-				if allCur {
-					windowSet[ti.Label] = true
-					if window == "" || ti.Mod {
-						window = ti.Label
-					}
-				}
-			}
-			if rec.Exit != 0 {
-				if window != "" && strings.Contains(rec.Stderr+rec.Stdout, "failed to load build metadata for ") {
-					c.Fail("rebuild-of-current-target-killed-while-metadata-rewritten", fmt.Sprintf("%s: the next build trusts the current record on the declared outputs next to an empty metadata file and fails (%s, scenario %s)", window, firstLine(rec.Stderr+rec.Stdout, "failed to load"), scen), js)
+		for _, ti := range tis {
+			f, cl := final[ti.Label], ref.Obs[ti.Label]
+			if f.Md == nil || !f.Md.Full {
+				if windowSet[ti.Label] {
+					c.Fail("empty-metadata-trusted-after-killed-rebuild-of-current-target", fmt.Sprintf("%s: the build after the kill reports the target unchanged although its metadata file is empty (scenario %s)", ti.Label, scen), js)
 				} else {
-					c.Fail("recovery-build-fails", fmt.Sprintf("the build after the kill exits %d (scenario %s): %s", rec.Exit, scen, tailStr(rec.Stderr+rec.Stdout, 300)), js)
+					c.Fail("metadata-incomplete-after-recovery", fmt.Sprintf("%s: metadata file missing or undecodable after the recovery build", ti.Label), js)
 				}
 				return
 			}
-			for _, l := range labels {
-				if ok, why := e2e.OutputsEqual(outs[l], ref.Outputs[l]); !ok {
-					c.Fail("recovery-differs-from-clean", fmt.Sprintf("%s after the kill and a normal build (scenario %s): %s", l, scen, why), js)
+			for n, fo := range f.Outs {
+				co := cl.Outs[n]
+				if co == nil || fo.Rec == nil || co.Rec == nil || *fo.Rec != *co.Rec {
+					c.Fail("record-differs-from-clean", fmt.Sprintf("%s output %s: the recorded hashes after recovery are not those of the clean build", ti.Label, n), js)
 					return
 				}
 			}
-			for _, ti := range tis {
-				f, cl := final[ti.Label], ref.Obs[ti.Label]
-				if f.Md == nil || !f.Md.Full {
-					if windowSet[ti.Label] {
-						c.Fail("empty-metadata-trusted-after-killed-rebuild-of-current-target", fmt.Sprintf("%s: the build after the kill reports the target unchanged although its metadata file is empty (scenario %s)", ti.Label, scen), js)
-					} else {
-						c.Fail("metadata-incomplete-after-recovery", fmt.Sprintf("%s: metadata file missing or undecodable after the recovery build", ti.Label), js)
-					}
-					return
-				}
-				for n, fo := range f.Outs {
-					co := cl.Outs[n]
-					if co == nil || fo.Rec == nil || co.Rec == nil || *fo.Rec != *co.Rec {
-						c.Fail("record-differs-from-clean", fmt.Sprintf("%s output %s: the recorded hashes after recovery are not those of the clean build", ti.Label, n), js)
-						return
-					}
-				}
-			}
-		})
-		_ = thorough
-	}
-	os.RemoveAll(repo.Dir)
-	os.RemoveAll(snapA)
-	os.RemoveAll(snapB)
+		}
+	})
 	return rr
 }
 
@@ -1265,7 +1338,7 @@ func partP(c *lib.Ctx, base string) {
 		}
 		plans = append(plans, repoPlan{replay.Spec, jobs, c.Rng.Fork()})
 	} else {
-		nrepos := c.Scale(5, 40)
+		nrepos := c.Scale(4, 40)
 		for i := 0; i < nrepos; i++ {
 			r := c.Rng.Fork()
 			adv := 0
@@ -1281,22 +1354,22 @@ func partP(c *lib.Ctx, base string) {
 				return p
 			}
 			var jobs []crashJob
-			nFirst, nEdit, nForced, nDouble := c.Scale(3, 12), c.Scale(4, 16), c.Scale(2, 6), c.Scale(1, 4)
+			nFirst, nEdit, nForced, nDouble := c.Scale(2, 12), c.Scale(3, 16), c.Scale(2, 6), c.Scale(1, 4)
 			for k := 0; k < nFirst; k++ {
 				switch k % 3 {
 				case 0:
 					jobs = append(jobs, crashJob{Scenario: "first", Point: next()})
 				case 1:
-					jobs = append(jobs, crashJob{Scenario: "first", Point: countPoint(r)})
-				default:
 					jobs = append(jobs, crashJob{Scenario: "first", Point: Point{Mode: "timer", DelayMs: r.Range(40, 900)}})
+				default:
+					jobs = append(jobs, crashJob{Scenario: "first", Point: countPoint(r)})
 				}
 			}
 			for k := 0; k < nEdit; k++ {
 				switch k % 4 {
-				case 0, 1:
+				case 0, 2:
 					jobs = append(jobs, crashJob{Scenario: "edit", Point: next()})
-				case 2:
+				case 1:
 					jobs = append(jobs, crashJob{Scenario: "edit", Point: countPoint(r)})
 				default:
 					jobs = append(jobs, crashJob{Scenario: "edit", Point: Point{Mode: "timer", DelayMs: r.Range(40, 900)}})
@@ -1342,9 +1415,11 @@ func partP(c *lib.Ctx, base string) {
 			plans = append(plans, repoPlan{spec, jobs, r})
 		}
 	}
+	tStart := time.Now()
 	results := make([]*repoResult, len(plans))
+	preps := make([]*prepared, len(plans))
 	var wg sync.WaitGroup
-	sem := make(chan struct{}, 6)
+	sem := make(chan struct{}, 8)
 	for i := range plans {
 		wg.Add(1)
 		sem <- struct{}{}
@@ -1353,11 +1428,37 @@ func partP(c *lib.Ctx, base string) {
 			defer func() { <-sem }()
 			dir := fmt.Sprintf("%s/r%d", base, i)
 			must(os.MkdirAll(dir, 0o755))
-			results[i] = runRepo(plans[i].r, dir, i, plans[i].spec, plans[i].jobs, c.Thor)
-			os.RemoveAll(dir)
+			results[i], preps[i] = prepareRepo(plans[i].r, dir, i, plans[i].spec)
 		}(i)
 	}
 	wg.Wait()
+	tPrep := time.Since(tStart)
+	type jr struct {
+		i, j int
+		rr   *repoResult
+	}
+	var jrs []*jr
+	for i := range plans {
+		for j := range plans[i].jobs {
+			jrs = append(jrs, &jr{i: i, j: j})
+		}
+	}
+	for _, x := range jrs {
+		wg.Add(1)
+		sem <- struct{}{}
+		go func(x *jr) {
+			defer wg.Done()
+			defer func() { <-sem }()
+			dir := fmt.Sprintf("%s/r%d/j%d", base, x.i, x.j)
+			must(os.MkdirAll(dir, 0o755))
+			x.rr = runJob(preps[x.i], x.j, plans[x.i].jobs[x.j], dir)
+			os.RemoveAll(dir)
+		}(x)
+	}
+	wg.Wait()
+	for _, x := range jrs {
+		results = append(results, x.rr)
+	}
 	nplz, nkill, nno := 0, 0, 0
 	for _, rr := range results {
 		for _, f := range rr.cases {
@@ -1367,6 +1468,7 @@ func partP(c *lib.Ctx, base string) {
 		nkill += rr.nkill
 		nno += rr.nnokil
 	}
+	c.Note("plz timing: reference and traced builds %.1fs, crash jobs %.1fs", tPrep.Seconds(), (time.Since(tStart) - tPrep).Seconds())
 	c.Note("plz: %d repositories, %d plz invocations, %d crash jobs in which plz was killed, %d in which the chosen point was not reached (plz finished; the oracle still ran)", len(plans), nplz, nkill, nno)
 }
 
@@ -1390,7 +1492,8 @@ func main() {
 		}
 		base := e2e.Scratch("c32")
 		defer os.RemoveAll(base)
-		partW(c, base)
+		reportW := partW(c, base)
 		partP(c, base)
+		reportW()
 	})
 }
